@@ -2,6 +2,7 @@ package main
 
 import (
 	"fmt"
+	"go/token"
 	"os"
 	"sort"
 	"strings"
@@ -399,6 +400,10 @@ func (e *Exec) RunPath(entry *ssa.Function, prefix []Decision) (end pathEnd) {
 	e.dec = e.dec[:0]
 	e.model, e.modelOK = Model{}, true // empty path condition: the all-zero model
 	e.steps, e.forks, e.assertsChecked = 0, 0, 0
+	// SCHED=d in the harness parameters turns schedule exploration on with delay bound d
+	e.schedBound = int(e.X.cfg.Params["SCHED"])
+	e.schedRev = e.X.cfg.Params["SCHEDREV"] != 0
+	e.schedBudget, e.forcePick, e.schedPoints = e.schedBound, nil, 0
 	e.nameCnt = map[string]int{}
 	e.vars = e.vars[:0]
 	e.covers = map[string]bool{}
@@ -484,20 +489,106 @@ func (e *Exec) safeModel() (ok bool) {
 
 var debugStacks = os.Getenv("GOSYM_STACKS") != ""
 
+// runnable lists the goroutines that can run, in default priority order (ascending id; goroutines
+// that yielded come last).
+func (e *Exec) runnable(except *Goroutine) []*Goroutine {
+	var out []*Goroutine
+	for pass := 0; pass < 2; pass++ {
+		n := len(out)
+		for _, g := range e.gs {
+			if g == except || g.done || (pass == 0) == g.lowPrio {
+				continue
+			}
+			if g.blocked != nil && !g.blocked() {
+				continue
+			}
+			out = append(out, g)
+		}
+		if e.schedRev {
+			// second base schedule: the youngest runnable goroutine first
+			for i, j := n, len(out)-1; i < j; i, j = i+1, j-1 {
+				out[i], out[j] = out[j], out[i]
+			}
+		}
+	}
+	return out
+}
+
+// isVisibleOp: operations before which another goroutine may be scheduled when schedule
+// exploration is on (communication, locking, goroutine creation).
+func isVisibleOp(instr ssa.Instruction) bool {
+	switch in := instr.(type) {
+	case *ssa.Send, *ssa.Select, *ssa.Go:
+		return true
+	case *ssa.UnOp:
+		return in.Op == token.ARROW
+	case *ssa.Call:
+		if f := in.Call.StaticCallee(); f != nil {
+			switch f.String() {
+			case "(*sync.Mutex).Lock", "(*sync.Mutex).Unlock", "(*sync.RWMutex).Lock", "(*sync.RWMutex).Unlock",
+				"(*sync.RWMutex).RLock", "(*sync.RWMutex).RUnlock", "(*sync.WaitGroup).Done", "(*sync.WaitGroup).Wait",
+				"(*sync.WaitGroup).Add", "close":
+				return true
+			}
+		}
+		if b, ok := in.Call.Value.(*ssa.Builtin); ok && b.Name() == "close" {
+			return true
+		}
+	}
+	return false
+}
+
+// offerPreemption makes "who runs next" a solver-chosen value before a visible operation of g:
+// 0 lets g continue, i > 0 delays g and runs the i-th other runnable goroutine; every delay is paid
+// from the path's delay budget. Reports whether g was preempted.
+func (e *Exec) offerPreemption(g *Goroutine, instr ssa.Instruction) bool {
+	others := e.runnable(g)
+	if len(others) == 0 {
+		return false
+	}
+	k := len(others)
+	if k > e.schedBudget {
+		k = e.schedBudget
+	}
+	e.schedPoints++
+	t := e.freshVar("sched", 64)
+	e.assume(CmpBV(OpULe, t, konst(k)))
+	i := int(e.concretize(t))
+	if i == 0 {
+		return false
+	}
+	e.schedBudget -= i
+	e.forcePick = others[i-1]
+	g.noPreemptAt = instr
+	g.blocked = func() bool { return true } // still runnable: re-executes the same instruction when resumed
+	g.why = "preempted"
+	return true
+}
+
 func (e *Exec) schedule() {
 	main := e.gs[0]
 	for !main.done {
 		var pick *Goroutine
-		for pass := 0; pass < 2 && pick == nil; pass++ {
-			for _, g := range e.gs {
-				if g.done || (pass == 0 && g.lowPrio) {
-					continue
+		if e.forcePick != nil {
+			pick, e.forcePick = e.forcePick, nil
+		} else {
+			list := e.runnable(nil)
+			if len(list) > 0 {
+				pick = list[0]
+			}
+			if e.schedBudget > 0 && len(list) > 1 && !e.inInit {
+				// the running goroutine blocked or ended: which of the runnable ones continues is
+				// a solver-chosen value too (index i costs i delays)
+				k := len(list) - 1
+				if k > e.schedBudget {
+					k = e.schedBudget
 				}
-				if g.blocked != nil && !g.blocked() {
-					continue
-				}
-				pick = g
-				break
+				e.schedPoints++
+				t := e.freshVar("sched", 64)
+				e.assume(CmpBV(OpULe, t, konst(k)))
+				i := int(e.concretize(t))
+				e.schedBudget -= i
+				pick = list[i]
 			}
 		}
 		if pick == nil {
